@@ -97,6 +97,8 @@ def find_labelled(c: Circuit, name):
 
 def _edge_filter(cap, c: Circuit):
     """producer/consumer filter for ideal isolation, keyed by blueprint entity numbers."""
+    if cap is None:
+        return lambda p, e: True
     pos2pid = pipeline.placement_by_position(cap)
     num2pid = {}
     for e in c.ents.values():
@@ -179,11 +181,17 @@ def expected_pairs(B, val, content, desc):
     return None
 
 
-def judge(src, *, optimize=True, power_pole_type=None, rnd=None, scalar_own_signal_only=True, keep_cap=False):
-    cap = pipeline.compile_capture(src, optimize=optimize, power_pole_type=power_pole_type)
-    if not cap.ok:
-        return ProgramVerdict(src, "rejected", detail=cap.error or "")
-    c = Circuit(cap.bp)
+def judge(src, *, optimize=True, power_pole_type=None, rnd=None, scalar_own_signal_only=True, keep_cap=False, bp=None):
+    """bp: judge an already decoded blueprint dict (e.g. the CLI's output) instead of compiling in-process;
+    no plan is available then, so a wire-isolation difference cannot be told from any other mismatch."""
+    if bp is not None:
+        cap = None
+        c = Circuit(bp)
+    else:
+        cap = pipeline.compile_capture(src, optimize=optimize, power_pole_type=power_pole_type)
+        if not cap.ok:
+            return ProgramVerdict(src, "rejected", detail=cap.error or "")
+        c = Circuit(cap.bp)
     pv = ProgramVerdict(src, "judged", n_entities=len(c.ents), cap=cap if keep_cap else None)
     B = Symbolic()
     cin = circuit_inputs(c)
@@ -304,7 +312,7 @@ def judge(src, *, optimize=True, power_pole_type=None, rnd=None, scalar_own_sign
             status = "crosstalk" if ist == "same" else "mismatch"
             pv.outputs.append(OutputVerdict(name, status, f"signal {label}", witness))
     _judge_entities(pv, sem, c, ev, B, cap, overrides)
-    if any(o.status == "mismatch" for o in pv.outputs) and _entity_output_collision(cap):
+    if cap is not None and any(o.status == "mismatch" for o in pv.outputs) and _entity_output_collision(cap):
         for o in pv.outputs:
             if o.status == "mismatch":
                 o.status = "entity-output-collision"
